@@ -31,8 +31,6 @@ where
             return error.clone();
         }
 
-        #[cfg(h3_verif)]
-        crate::shared_state::verif::yield_point("d:own_error");
         let err = self.set_conn_error(error.into());
         let err = self.close_if_needed(err);
         // err might be a different error so match again
@@ -76,19 +74,13 @@ where
             return Poll::Ready(Err(error.clone()));
         };
 
-        #[cfg(h3_verif)]
-        crate::shared_state::verif::yield_point("d:before_check");
         // Check if the connection is in error state
         if let Some(err) = self.get_conn_error() {
             let err = self.close_if_needed(err);
             // err might be a different error so match again
             return Poll::Ready(Err(self.convert_to_connection_error(err)));
         }
-        #[cfg(h3_verif)]
-        crate::shared_state::verif::yield_point("d:before_register");
         self.waker().register(cx.waker());
-        #[cfg(h3_verif)]
-        crate::shared_state::verif::yield_point("d:registered");
         Poll::Pending
     }
 
